@@ -8,7 +8,7 @@ EXTENDS XargsRead, TraceLib
 
 Expected(in) == RefRead(in.bytes, in.delim)
 
-InDomain(in) == Expected(in).dom
+InDomain(in, obs) == Expected(in).dom
 
 Conforms(in, obs) ==
   LET e == Expected(in) IN
